@@ -7,6 +7,7 @@ C20.2 type-tree walk (ADT fields AND generic arguments, through heap indirection
 C20.3 inventory: no `static mut`, no non-Freeze static, no thread_local, no `unsafe` block, no
       unsafe impl other than the three `Pod` markers; public inherent methods take `&self`.
 """
+import re
 import facts as F
 import witness as W
 
@@ -144,6 +145,27 @@ def run(ctx, rep):
             for o in opaque:
                 # opaque payloads are only acceptable if the crate never stores a value there
                 key = "C20.2/opaque/%s%s" % (a["path"], o["via"])
+                if o["what"] == "opaque" and re.match(r"^[A-Z]\w*$", o.get("ty") or "") and not a.get("reachable_pub"):
+                    # a type parameter of a crate-private generic wrapper (`struct MemberGroups<K>(..)`, `struct CausedBy<T>(T)`): what it
+                    # can hold is decided where it is instantiated - every `Name<args>` written anywhere in the crate's types and signatures
+                    import effects as E2
+                    nm_ = a["path"].split("::")[-1]
+                    uses_ = set()
+                    for a2 in fx.all_adts("proguard"):
+                        for v2 in a2["variants"]:
+                            for f2 in v2["fields"]:
+                                uses_ |= set(re.findall(r"\b%s<([^;{}]*)>" % re.escape(nm_), f2["ty"]))
+                    for b2 in fx.bodies.values():
+                        if b2["krate"] == "proguard":
+                            for t2 in list(b2.get("inputs") or []) + [b2.get("output") or ""]:
+                                uses_ |= set(re.findall(r"\b%s<([^;{}]*)>" % re.escape(nm_), t2))
+                    for s2 in fx.items["proguard"].get("statics", []):
+                        uses_ |= set(re.findall(r"\b%s<([^;{}]*)>" % re.escape(nm_), s2["ty"]))
+                    badu_ = sorted(u_ for u_ in uses_ if E2.INTERIOR_WORDS.search(u_) or "dyn " in u_)
+                    rep.check("C20.2" + sfx, key, not badu_, loc=F.short_file(a["sp"]),
+                              found="private generic wrapper %s<%s>: instantiated with %s" % (nm_, o["ty"], sorted(uses_)[:6] or "nothing nameable"),
+                              expected="no instantiation with an interior-mutable or `dyn` type", nontrivial=False)
+                    continue
                 fld = o["via"].split(".")[1].split("<")[0] if "." in o["via"] else None
                 cons = []
                 for b in fx.bodies.values():
